@@ -63,8 +63,22 @@ CHECKS = {
     "C19": {"level": "exploration", "technique": "seeded simulation with fault injection on the training file (junk lines, undecodable bytes, unterminated last line, random byte flips) across equivalent encodings; pass-by-pass comparison and ruleset byte comparison",
             "text": "One logical list is rendered as plain / $HEX[] / count-prefixed / CRLF files with injected junk; all three passes of every variant must yield exactly the list and the rulesets must be byte-identical; random byte flips must not abort training, desynchronise the passes or leak forbidden characters into the ruleset.",
             "note": _TB + "; fragments produced by codec line splitting are counted, not judged"},
+    "C03": {"level": "exploration", "technique": "seeded multi-party simulation over one scratch disk: trainer -> ruleset bytes -> guesser run to exhaustion, reproduction and mass-conservation oracle",
+            "text": "The real trainer and the real guesser (skip_brute) are run back to back over the scratch disk for generated lists x coverage x n-gram x alphabet x encoding; every supported training password must be emitted and probability x guesses must sum to 1.",
+            "note": _TB + "; no schedule or fault enters (fit W); languages above 60000 guesses are skipped"},
+    "C13": {"level": "exploration", "technique": "seeded multi-party simulation over one scratch disk (scorer vs guesser) plus a call-history check on the stateful scorer",
+            "text": "The real scorer and the real guesser read the same trained ruleset; every candidate with a non-zero score must be in the guesser's output with that probability, e-mail/URL candidates must be classified with probability 0, and re-scoring the candidates in another order after unrelated strings must give identical tuples.",
+            "note": _TB + "; fit W apart from the call-history clause; one known finding keyed to letters outside the one-to-one case domain"},
+    "C16": {"level": "exploration", "technique": "deterministic simulation with the RNG behind a seam: scripted uniform draws swept over reference break-points and bisected on the real code (measure of each outcome), scripted extreme draw sequences through whole process images",
+            "text": "random.random/choice/seed/randint are the simulator's; for every structure and every variable the real random_walk is probed at cell midpoints, 0.0, 1-2^-53 and bisected between cells so the measure of the draw set per outcome is compared with the reference probability; scripted choice indices are compared with the reference expansion; main() in both modes must write exactly N words of the language for extreme draw scripts; random_walk is run twice (and in fresh interpreters under other hash seeds).",
+            "note": _TB + "; measure tolerance 1e-9 per cell"},
+    "C17": {"level": "exploration", "technique": "seeded simulation of prince_ling process images with two recorded sinks; --size enumerated over every N for small worlds",
+            "text": "prince_ling.main() over synthetic (wide tie groups) and trained rulesets; the unbounded list is compared with the reference PRINCE language (order, probability, multiset), the -o file with stdout, and --size N with the first N lines for every N in 1..total+1 on small worlds.",
+            "note": _TB + "; no schedule or fault enters (fit W)"},
+    "C20": {"level": "exploration", "technique": "seeded simulation of edit_rules process images on a scratch disk with whole-tree before/after snapshots, then the guesser over the edited disk",
+            "text": "edit_rules.main() with drawn length/terminal/regex/--copy options; grammar.txt must equal the original lines minus those failing the documented filter, nothing else on the disk may change, --copy must leave the source untouched; the real guesser then runs over the edited ruleset and every guess length is checked against the bounds.",
+            "note": _TB + "; no schedule or fault enters (fit W); one known finding keyed to X1 counted as length 1"},
 }
 
 _PENDING = "check not built yet in this round (planned: DESIGN.md §6); not claimed until its evidence exists"
-NOT_APPLICABLE = {p: _PENDING for p in
-                  ["C03", "C13", "C16", "C17", "C20"]}
+NOT_APPLICABLE = {}
